@@ -1408,7 +1408,10 @@ class Context:
                 length = arg.length
                 result = array_class(length)
                 for i in range(length):
-                    result.set_index(i, arg.get_index(i))
+                    value = arg.get_index(i)
+                    if isinstance(value, JSObject):
+                        value = self._js_to_number(value)
+                    result.set_index(i, value)
                 return result
             if isinstance(arg, JSTypedArray):
                 # new Int32Array(otherTypedArray): element-wise copy
